@@ -40,7 +40,7 @@ func init() {
 			die("NewCallIterator: no string cases found")
 		}
 		b.WriteString("(* calls accepted by query.NewCallIterator (pushed down and re-applied at every merge) *)\n")
-		for _, f := range []string{"count", "sum", "mean", "min", "max", "first", "last", "spread", "median"} {
+		for _, f := range []string{"count", "sum", "mean", "min", "max", "first", "last", "spread", "median", "distinct", "mode", "percentile"} {
 			fmt.Fprintf(b, "Definition c11_call_iterator_%s : bool := %v.\n", f, names[f])
 		}
 		// Iterators.Merge rewrites count to sum for the upper levels
